@@ -12,7 +12,8 @@
 (***************************************************************************)
 EXTENDS Naturals, Sequences, FiniteSets, TLC, Json
 
-M(name, recv, args, ret) == [name |-> name, recv |-> recv, args |-> args, ret |-> ret, skip |-> FALSE, dflt |-> FALSE, doc |-> FALSE]
+(* argnames: the names of the arguments as written in the source ("a" or "b" series) - not part of the C-visible interface *)
+M(name, recv, args, ret) == [name |-> name, recv |-> recv, args |-> args, ret |-> ret, skip |-> FALSE, dflt |-> FALSE, doc |-> FALSE, argnames |-> "a"]
 
 Base == [ir |-> FALSE,
          ms |-> << M("m1", "ref", <<"i64">>, "i64"),
@@ -58,6 +59,10 @@ EditSet ==
   \cup { [name |-> N("arg2_type", k),     def |-> [Base EXCEPT !.ms[k].args[2] = OtherTy(@)]] : k \in {j \in K : Len(Base.ms[j].args) > 1} }
   \cup { [name |-> N("ret_type", k),      def |-> [Base EXCEPT !.ms[k].ret = OtherTy(@)]] : k \in K }
   \cup { [name |-> N("receiver", k),      def |-> [Base EXCEPT !.ms[k].recv = OtherRecv(@)]] : k \in K }
+  \* two differences in ONE method: the arguments renamed (not C-visible, nothing is claimed about that alone) AND a C-visible
+  \* change - the verdict is the C-visible change's
+  \cup { [name |-> N("recv_argnames", k), def |-> [Base EXCEPT !.ms[k].recv = OtherRecv(@), !.ms[k].argnames = "b"]] : k \in {j \in K : Len(Base.ms[j].args) > 0} }
+  \cup { [name |-> N("ret_argnames", k),  def |-> [Base EXCEPT !.ms[k].ret = OtherTy(@), !.ms[k].argnames = "b"]] : k \in {j \in K : Len(Base.ms[j].args) > 0} }
   \cup { [name |-> N("add_arg", k),       def |-> [Base EXCEPT !.ms[k].args = @ \o <<"u8">>]] : k \in K }
 Preserving == {"identical", "documented", "skipped_extra"}
 
